@@ -1383,6 +1383,36 @@ func (m *Nitro) LoadFromDisk(dir string, concurr int, callb ItemCallback) (*Snap
 			readers[i] = r
 		}
 
+		// Delta items are inserted with the key comparator as they are read.
+		// Verify the delta files first: a damaged item must not reach the
+		// comparator (a key-value comparator indexes into the item bytes).
+		for i, file := range files {
+			if !hasDeltaChecksums && deltaChecksums[i] == 0 {
+				continue
+			}
+
+			vr := m.newFileReader(m.fileType, version)
+			if err := vr.Open(filepath.Join(deltadir, file)); err != nil {
+				return nil, err
+			}
+			for {
+				itm, err := vr.ReadItem()
+				if err != nil {
+					vr.Close()
+					return nil, err
+				}
+				if itm == nil {
+					break
+				}
+				m.freeItem(itm)
+			}
+			checksum := vr.Checksum()
+			vr.Close()
+			if checksum != deltaChecksums[i] {
+				return nil, ErrCorruptSnapshot
+			}
+		}
+
 		for i := 0; i < concurr; i++ {
 			writers[i] = m.newWriter()
 			wg.Add(1)
